@@ -119,6 +119,31 @@ func cmdViews(args []string) error {
 				}
 			}
 		}
+		// ---- a child view obtained with this spelling, then READ through: whatever it shows must live under the view's root
+		calls++
+		func() {
+			defer func() {
+				if r := recover(); r != nil {
+					fail(c, "panic:sub-read", "sub-read", fmt.Sprint(r))
+				}
+			}()
+			sub, err := w.Top.Filespace(p)
+			if err != nil || sub == nil || hasCrypt {
+				return
+			}
+			base := strings.Join(c.Base, "/")
+			for _, q := range []string{"a", "f", "f/a", "a/f", "v/a", "v/f", "v/a/f", "v/f/a", "../a", "../f", "../f/a", "../a/f", "../../a", "../../f/a"} {
+				data, err := sub.ReadFile(q)
+				if err != nil || !strings.HasPrefix(string(data), "C:") {
+					continue
+				}
+				origin := strings.TrimPrefix(string(data), "C:")
+				if base != "" && !strings.HasPrefix(origin, base+"/") {
+					fail(c, "leak:sub-read", "sub-read", fmt.Sprintf("Filespace(%q) of the view, then ReadFile(%q), returned the content of %q, which is not under the view's root %q", p, q, origin, base))
+					return
+				}
+			}
+		}()
 		after, err := w.Snapshot()
 		if err != nil {
 			fail(c, "snapshot", "reads", err.Error())
